@@ -422,9 +422,12 @@ func (s *shard) repair(ctx context.Context, id []byte, property *propertyv1.Prop
 
 	// if the lastest property in shard is bigger than the repaired property,
 	// then the repaired process should be stopped.
+	// A delete keeps the revision of the property it deletes, so on equal revisions the copy with the
+	// later delete time (zero: not deleted) is the newer state: a tombstone must never be replaced by
+	// the value it deleted, whichever replica offers its copy first.
 	if (olderProperties[len(olderProperties)-1].timestamp > property.Metadata.ModRevision) ||
 		olderProperties[len(olderProperties)-1].timestamp == property.Metadata.ModRevision &&
-			olderProperties[len(olderProperties)-1].deleteTime == deleteTime {
+			olderProperties[len(olderProperties)-1].deleteTime >= deleteTime {
 		return false, olderProperties[len(olderProperties)-1], nil
 	}
 
